@@ -199,6 +199,56 @@ def k1_k2(repo, res):
     res.require(n1 >= 20, f"only {n1} batch-level tests found (rule would pass vacuously)")
 
 
+def _expansion(e, defs):
+    """(operator, count text, axis text) if e is np.repeat/np.tile(..) or a local name bound once to such a call, else None"""
+    if isinstance(e, ast.Name) and e.id in defs and len(defs[e.id]) == 1:
+        e = defs[e.id][0]
+    if isinstance(e, ast.Call) and isinstance(e.func, ast.Attribute) and e.func.attr in ("repeat", "tile") and ast.unparse(e.func.value) == "np" and len(e.args) >= 2:
+        ax = next((ast.unparse(k.value) for k in e.keywords if k.arg == "axis"), ast.unparse(e.args[2]) if len(e.args) > 2 else "-")
+        if e.func.attr == "repeat" and ax == "-":
+            return None      # repeat without axis flattens: element-level cartesian tables (CylinderSegment corner combinations), not row expansion
+        return (e.func.attr, ast.unparse(e.args[1]), ax)
+    return None
+
+
+def expand_pair(repo, res):
+    """K3 EXPAND-PAIR: arguments of one field-function call that are row-expanded (np.repeat / np.tile) use the same operator, count
+    and axis - row r of every expanded argument must still stem from the same input row (repeat: r // k, tile: r % n)."""
+    n = 0
+    for m, _fname, fn in field_functions(repo):
+        for f in [x for x in ast.walk(fn) if isinstance(x, ast.FunctionDef)]:
+            # per block: names bound once in that block (branches rebind the same names with different counts)
+            blocks = [f.body] + [b for x in ast.walk(f) if isinstance(x, (ast.If, ast.For, ast.While, ast.With, ast.Try))
+                                 for b in (getattr(x, "body", []), getattr(x, "orelse", []))]
+            for blk in blocks:
+                defs = {}
+                for s in blk:
+                    if isinstance(s, ast.Assign) and len(s.targets) == 1 and isinstance(s.targets[0], ast.Name):
+                        defs.setdefault(s.targets[0].id, []).append(s.value)
+                for s in blk:
+                    if isinstance(s, (ast.If, ast.For, ast.While, ast.With, ast.Try, ast.FunctionDef)):
+                        continue
+                    for c in ast.walk(s):
+                        if not (isinstance(c, ast.Call) and isinstance(c.func, ast.Name) and repo.resolve_name(m, c.func.id)
+                                and repo.resolve_name(m, c.func.id)[0] == "func"):
+                            continue
+                        exps = [((k.arg if k is not None and k.arg else f"arg{i}"), _expansion(v, defs)) for i, (k, v) in
+                                enumerate([(None, a) for a in c.args] + [(k, k.value) for k in c.keywords])]
+                        exps = [(k, e) for k, e in exps if e]
+                        if len(exps) < 2:
+                            continue
+                        n += 1
+                        sigs = {e for _, e in exps}
+                        ok = len(sigs) == 1
+                        res.ob(f"K3:{f.name}:{c.func.id}:{','.join(k for k, _ in exps)}", ok,
+                               {"rule": "K3", "function": f.name, "callee": c.func.id, "expanded_arguments": {k: list(e) for k, e in exps}})
+                        if not ok:
+                            res.add(Finding("K3", m.rel, f.name, c, f"row-expanded arguments of one call use different expansions "
+                                            f"{ {k: e for k, e in exps} }: rows of different inputs are paired", c.lineno))
+    res.require(n >= 4, f"K3: only {n} calls with two or more row-expanded arguments found (5 confirmed by hand)")
+    res.analysed["K3_calls"] = n
+
+
 def run_group(repo, res):
     m = repo.mod(FIELDS + "field_BH_triangularmesh")
     fn = m.funcs.get("BHJM_magnet_trimesh")
@@ -457,11 +507,12 @@ def twins(repo, res):
 
 
 def run(repo, res, tier):
-    res.rules = ["RUN-GROUP admission rule", "K1 batch-level branches", "K2 row-axis reductions", "TWIN scalar/vector branch agreement", "L2-GROUP", "L2-SCATTER", "L2-PAD"]
+    res.rules = ["RUN-GROUP admission rule", "K1 batch-level branches", "K2 row-axis reductions", "TWIN scalar/vector branch agreement", "L2-GROUP", "L2-SCATTER", "L2-PAD", "K3 EXPAND-PAIR"]
     run_group(repo, res)
     k1_k2(repo, res)
     twins(repo, res)
     level2(repo, res)
+    expand_pair(repo, res)
     res.assumptions += ["NumPy elementwise operations, boolean masking and axis=-1/1 reductions do not couple rows",
                         "a batch-level `if np.any(M)` whose body only writes under M (or masks derived from M) is semantically a no-op for an empty selection"]
     return {}
